@@ -1,6 +1,7 @@
 package main
 
 import (
+	"go/constant"
 	"go/token"
 	"go/types"
 	"strings"
@@ -1405,8 +1406,81 @@ func checkFieldsDupCheck(p *Prog, r *Report, prefix string) {
 				}
 			}
 		}
+		// (c) the verdict of a helper handed the stored list, whose every
+		// "found" return sits under an equality of two elements of its list
+		if !good {
+			for _, ef := range expandFacts(factsAt(c.Block())) {
+				if !ef.Truth {
+					continue
+				}
+				v, idx := ef.Cond, 0
+				if ex, ok := v.(*ssa.Extract); ok {
+					v, idx = ex.Tuple, ex.Index
+				}
+				hc, ok := v.(*ssa.Call)
+				if !ok {
+					continue
+				}
+				g := hc.Common().StaticCallee()
+				if g == nil || g.Pkg != f.Pkg || len(g.Blocks) == 0 || hc.Common().IsInvoke() {
+					continue
+				}
+				for k, a := range hc.Common().Args {
+					if k < len(g.Params) && isStringSlice(a.Type()) && isStored(a) && dupVerdictOf(g, g.Params[k], idx) {
+						good = true
+					}
+				}
+			}
+		}
 		r.decide(good, prefix+".fields-dup-check", "NewParams:"+p.describe(c), p.pos(c.Pos()), "the duplicate test is made on the elements of the list stored in Params.Fields",
 			"the duplicate-field error is not raised by a test over the elements of the list that is stored as the type's field selection (another list is scanned): a repeated name (\"id\", say) can stay in the selection")
 	})
 	r.floor("duplicate-field error sites in NewParams", n, 1)
+}
+
+// dupVerdictOf reports whether result idx of g is true only where two elements
+// of the list parameter were found equal.
+func dupVerdictOf(g *ssa.Function, list *ssa.Parameter, idx int) bool {
+	elemOf := func(v ssa.Value) bool {
+		ld, ok := v.(*ssa.UnOp)
+		if !ok || ld.Op != token.MUL {
+			return false
+		}
+		ia, ok := ld.X.(*ssa.IndexAddr)
+		return ok && stripValue(ia.X) == ssa.Value(list)
+	}
+	n := 0
+	for _, b := range g.Blocks {
+		ret, ok := b.Instrs[len(b.Instrs)-1].(*ssa.Return)
+		if !ok || idx >= len(ret.Results) {
+			continue
+		}
+		res := ret.Results[idx]
+		if k, ok := res.(*ssa.Const); ok && k.Value != nil && k.Value.Kind() == constant.Bool {
+			if !constant.BoolVal(k.Value) {
+				continue
+			}
+			eq := false
+			for _, ef := range expandFacts(factsAt(b)) {
+				bo, ok := ef.Cond.(*ssa.BinOp)
+				if !ok {
+					continue
+				}
+				op := bo.Op
+				if !ef.Truth {
+					op = negateCmp(op)
+				}
+				if op == token.EQL && elemOf(bo.X) && elemOf(bo.Y) {
+					eq = true
+				}
+			}
+			if !eq {
+				return false
+			}
+			n++
+			continue
+		}
+		return false
+	}
+	return n > 0
 }
